@@ -2,10 +2,18 @@
   C10 (area toast) — nothing in pgdump/toast.go faults, for every byte string, every pointer, every chunk list.
   The models are those of toast.go with fixes/toast/01..04 applied (Model/Toast.lean, Model/Pglz.lean, Model/Lz4.lean);
   their slice/index primitives check against the length of the slice they are given, so "no fault" means: no Go panic
-  (index, slice bounds, division by zero in `i % offset`) AND no read beyond the slice.  Allocation (finding A34: the
-  up-front `make([]byte, 0, rawSize)`) is outside the model; it is checked by the malformed family `toastmut`.
+  (index, slice bounds, division by zero in `i % offset`) AND no read beyond the slice.
+
+  Resource clause ("does not run or allocate beyond a small multiple of what the input size warrants"), second half of
+  this file: SIZE of the results for arbitrary bytes (`C10_size_*`; the up-front `make([]byte, 0, allocHint(...))` is
+  outside the model: family `toastmut` / `resource` watch the allocation) and TERMINATION within len(stream) iterations
+  (`C10_fuel_*`: the model's iteration budget is never what ends a loop).  What the input "warrants" for a compressed
+  value is its declared raw size as far as the format can deliver it: an LZ4 block expands at most 255 times (one
+  extension byte = 255 output bytes), so 256 KiB of stream legitimately warrant 64 MiB of value; ReassembleTOAST never
+  returns more than va_rawsize − 4 + the chunk bytes, on any of its paths (after fix toast/20 also on the zlib fallback).
 -/
 import PgVerif.Proofs.ToastTotal
+import PgVerif.Proofs.ToastSize
 namespace PgVerif.Props.C10.Toast
 open PgVerif PgVerif.Model PgVerif.Model.Toast PgVerif.Proofs.Toast
 
@@ -38,18 +46,59 @@ theorem C10_total_decompressLZ4 (data : Bytes) (rawSize : Nat) : ∃ r, Lz4.deco
 
 /-- ReassembleTOAST returns for every chunk list (duplicates, gaps, empty chunks), every value id, every pointer
 (any raw size incl. 0..3 and 2^32−1, any method, compressed or not, or nil) and every behaviour of the zlib fallback. -/
-theorem C10_total_reassembleTOAST (zlib : Bytes → Option Bytes) (chunks : List Chunk) (valueID : Nat) (ptr : Option Ptr) :
+theorem C10_total_reassembleTOAST (zlib : Bytes → Nat → Option Bytes) (chunks : List Chunk) (valueID : Nat) (ptr : Option Ptr) :
     ∃ r, reassembleTOAST zlib chunks valueID ptr = .ok r :=
   reassembleTOAST_total zlib chunks valueID ptr
 
 /-- TOASTReader.ReadValue returns for every input, every set of loaded tables, and every outcome of reading the
 relation file from the data directory. -/
-theorem C10_total_readValue (zlib : Bytes → Option Bytes) (readFile : Nat → Option Bytes) (r : Reader) (data : Bytes) :
+theorem C10_total_readValue (zlib : Bytes → Nat → Option Bytes) (readFile : Nat → Option Bytes) (r : Reader) (data : Bytes) :
     ∃ x, readValue zlib readFile r data = .ok x :=
   readValue_total zlib readFile r data
 
 /-- GetTOASTVerboseInfo returns for every relation id and every byte string. -/
 theorem C10_total_getTOASTVerboseInfo (relid : Nat) (data : Bytes) : ∃ r, getTOASTVerboseInfo relid data = .ok r :=
   getTOASTVerboseInfo_total relid data
+
+/-! ## resource clause: sizes and termination, arbitrary bytes -/
+
+/-- decompressPGLZ never returns more than `rawSize` bytes, for every stream. -/
+theorem C10_size_decompressPGLZ (data : Bytes) (rawSize : Nat) (d : Bytes)
+    (h : Pglz.decompressPGLZ data rawSize = .ok (some d)) : d.length ≤ rawSize :=
+  Proofs.ToastSize.decompressPGLZ_len data rawSize d h
+
+/-- decompressLZ4, for every block: the result has at most `rawSize + len(stream)` bytes (matches stop at rawSize,
+literals are copied without looking at it) and at most `255 · len(stream)` bytes (the expansion the LZ4 block format can
+reach: one length-extension byte stands for 255 output bytes — a property of the format, not of this decoder). -/
+theorem C10_size_decompressLZ4 (data : Bytes) (rawSize : Nat) (d : Bytes)
+    (h : Lz4.decompressLZ4 data rawSize = .ok (some d)) : d.length ≤ rawSize + data.length ∧ d.length ≤ 255 * data.length :=
+  Proofs.ToastSize.decompressLZ4_len data rawSize d h
+
+/-- ReassembleTOAST, for every chunk list, value id and pointer: the value it returns is never longer than the chunk
+bytes it was given for that value plus — for a compressed pointer — va_rawsize − 4.  `hz` is io.LimitReader's contract
+for the zlib fallback (`zlib d n` = at most `n` bytes; fix toast/20 — before it the fallback was an unbounded
+`io.ReadAll`: 256 KiB of chunk data → 203 MB, known finding C10-zlib-bomb). -/
+theorem C10_size_reassembleTOAST (zlib : Bytes → Nat → Option Bytes) (hz : ZlibBounded zlib) (chunks : List Chunk)
+    (valueID : Nat) (ptr : Option Ptr) (r : Bytes) (h : reassembleTOAST zlib chunks valueID ptr = .ok (some r)) :
+    r.length ≤ (match ptr with | some p => p.rawSize - 4 | none => 0) + Proofs.ToastSize.chunkBytes chunks valueID :=
+  Proofs.ToastSize.reassembleTOAST_len zlib hz chunks valueID ptr r h
+
+/-- the hypothesis of `C10_size_reassembleTOAST` is satisfiable: a fallback that always fails, and one that returns a
+prefix of its input -/
+example : ZlibBounded (fun _ _ => none) := fun _ _ _ h => by cases h
+example : ZlibBounded (fun d n => some (d.take n)) := fun d n z h => by
+  cases h; simp only [List.length_take]; omega
+
+/-- decompressPGLZ terminates by consuming input: with ANY iteration budget above len(stream) the outer loop gives the
+same result, so the model's budget `len(stream)+1` is never what stops it (every outer iteration consumes the control
+byte).  Together with `C10_total_decompressPGLZ`: the Go loop ends within len(stream) iterations on every input. -/
+theorem C10_fuel_decompressPGLZ (data : Bytes) (rawSize g : Nat) (hg : data.length < g) (h4 : ¬ data.length < 4) :
+    Pglz.decompressPGLZ data rawSize = (do let r ← Pglz.decompress rawSize g data []; pure (some r)) :=
+  Proofs.ToastSize.decompressPGLZ_fuel data rawSize g hg h4
+
+/-- decompressLZ4 likewise: every iteration of its main loop consumes the token byte. -/
+theorem C10_fuel_decompressLZ4 (data : Bytes) (rawSize g : Nat) (hg : data.length < g) (h1 : ¬ data.length < 1) :
+    Lz4.decompressLZ4 data rawSize = Lz4.loop rawSize g data [] :=
+  Proofs.ToastSize.decompressLZ4_fuel data rawSize g hg h1
 
 end PgVerif.Props.C10.Toast
